@@ -766,7 +766,13 @@ structure FImg where
   eof : Nat
   /-- the `HashMap<usize,Vec<u8>>` as an association list with distinct keys -/
   chunks : List (Nat × Bytes)
+  /-- variant bit, not part of the file image: the tree has `proposed_fixes/cpm-put-interface-flags.diff` applied
+  (`write_file` refuses an image that sets an interface attribute F5–F8).  Set by the driver; the theorems hold for both values. -/
+  guardIface : Bool := false
   deriving Repr, Inhabited
+
+/-- `fimg.access.len()==11 && fimg.access[4..8].iter().any(|b| *b>0x7f)`: the image sets one of the interface attributes F5–F8 -/
+def FImg.ifaceFlags (f : FImg) : Bool := decide (f.access.length = 11) && ((f.access.drop 4).take 4).any (fun b => decide (b > 127))
 
 /-- `FileImage::end()` -/
 def FImg.end_ (f : FImg) : Nat := f.chunks.foldl (fun m c => max m (c.1 + 1)) 0
@@ -878,6 +884,8 @@ def put (d : Dpb) (r : Raw) (f : FImg) (now : Bytes) : R Unit × Raw :=
   | .error e => (.error e, r)
   | .ok (user, name) =>
     if !isNameValid name then (.error .badFormat, r) else
+    -- repaired tree only: F5–F8 are never stored (`build_files` rejects a directory that has them)
+    if f.guardIface && f.ifaceFlags then (.error .badFormat, r) else
     match getDirectory d r with
     | .error e => (.error e, r)
     | .ok dir =>
